@@ -58,6 +58,7 @@ type Stats struct {
 	BoundFails    int
 	UnknownFeas   int
 	Merged        int
+	Portfolio     int
 	Funcs         map[string]bool
 	ReachCount    map[string]int
 	AssertLabels  map[string]int
